@@ -277,6 +277,20 @@ theorem prun_real (plug : Registry → Plug) (h : List Goyang.Model.Op) (s : Ses
     rw [List.map_cons, prunFrom_cons, pstep_real, ih, Goyang.Lemmas.Session.runFrom_cons]
     rfl
 
+theorem embOp_isRead (plug : Registry → Plug) (op : Goyang.Model.Op) : (embOp plug op).isRead = op.isRead := by
+  cases op <;> rfl
+
+theorem embOut_isReadOut (plug : Registry → Plug) (o : Goyang.Model.Out) : (embOut plug o).isReadOut = o.isReadOut := by
+  cases o <;> rfl
+
+theorem filter_map_embOut (plug : Registry → Plug) (l : List Goyang.Model.Out) :
+    (l.map (embOut plug)).filter (fun o => !o.isReadOut) = (l.filter (fun o => !o.isReadOut)).map (embOut plug) := by
+  induction l with
+  | nil => rfl
+  | cons o os ih =>
+    simp only [List.map_cons, List.filter_cons, embOut_isReadOut, ih]
+    split <;> rfl
+
 /-! ### the laws -/
 
 theorem tryLoadSrc_len (reg r' : Registry) (src : Src) (h : tryLoadSrc reg src = .ok r') :
